@@ -491,6 +491,8 @@ class Sim:
         self._pct_changes: List[int] = []
         self._last_fault_outcome: Optional[list] = None
         self.phase_no = 0
+        self.sticky: Dict[Tuple[str, str], dict] = {}
+        self.sticky_hits = 0
 
     # -- actors ------------------------------------------------------------------------
     def spawn(self, name: str, fn: Callable[[], Any]) -> Actor:
@@ -682,6 +684,14 @@ class Sim:
                 fault = self.fault_policy(self, actor, kind, role, rel, info)
         if fault is not None and not _fault_applies(fault, kind):
             fault = None
+        if fault is None and faultable and (kind, rel) in self.sticky:
+            # a persistent condition (read-only file, full disk): the same operation on the
+            # same path keeps failing, however often the code retries
+            fault = dict(self.sticky[(kind, rel)])
+            forced = fault
+            self.sticky_hits += 1
+        elif fault is not None and fault.get("sticky") and fault["fault"] == "errno":
+            self.sticky[(kind, rel)] = {"fault": "errno", "errno": fault["errno"]}
         self.seq += 1
         ev = [self.seq, actor.name, kind, self._pidx(role, rel),
               _fault_label(fault), info.get("n")]
